@@ -29,7 +29,23 @@ var c08Recs = []mockq.Rec{
 	{Line: `{"a":"1"}`, Labels: nil},
 	// the values of record 2 swapped between its labels: an order-insensitive combination of names and values confuses the two
 	{Line: `p`, Labels: []mockq.KV{{K: "a", V: `y`}, {K: "b", V: `x`}}},
+	// --- records below are outside the sequence alphabet (c08Base); they have a family of their own ---
+	// long values of equal length that differ only at the very end (a key built from a prefix and a length confuses them)
+	{Line: `p`, Labels: []mockq.KV{{K: "a", V: strings.Repeat("L", 100) + "a"}}},
+	{Line: `p`, Labels: []mockq.KV{{K: "a", V: strings.Repeat("L", 100) + "b"}}},
+	{Line: strings.Repeat("m", 120) + "1", Labels: []mockq.KV{{K: "a", V: `x`}}},
+	{Line: strings.Repeat("m", 120) + "2", Labels: []mockq.KV{{K: "a", V: `x`}}},
+	// values that are not valid UTF-8, differing only in the invalid bytes; and the replacement character itself
+	{Line: `p`, Labels: []mockq.KV{{K: "a", V: "x\xfe"}}},
+	{Line: `p`, Labels: []mockq.KV{{K: "a", V: "x\xff"}}},
+	{Line: `p`, Labels: []mockq.KV{{K: "a", V: "x\xff\xff"}}},
+	{Line: `p`, Labels: []mockq.KV{{K: "a", V: "x\ufffd"}}},
+	{Line: "q\xc3", Labels: []mockq.KV{{K: "a", V: `x`}}},
+	{Line: "q\xe4", Labels: []mockq.KV{{K: "a", V: `x`}}},
 }
+
+// c08Base: the records of the exhaustive sequence alphabet.
+const c08Base = 13
 
 type c08Input struct {
 	Recs  []int  `json:"recs"`  // indexes into the record alphabet, in delivery order
@@ -201,18 +217,33 @@ func c08Run(r *vkit.Run) {
 		if len(cur) == maxLen {
 			return
 		}
-		for i := range c08Recs {
+		for i := 0; i < c08Base; i++ {
 			rec(append(cur, i))
 		}
 	}
 	rec(nil)
 	sort.SliceStable(seqs, func(i, j int) bool { return len(seqs[i]) < len(seqs[j]) })
+	// long and non-UTF-8 values: every sequence of length <= 3 over those records and one plain record
+	{
+		special := []int{9}
+		for i := c08Base; i < len(c08Recs); i++ {
+			special = append(special, i)
+		}
+		for _, a := range special {
+			for _, b := range special {
+				seqs = append(seqs, []int{a, b})
+				for _, c := range special {
+					seqs = append(seqs, []int{a, b, c})
+				}
+			}
+		}
+	}
 	// a few longer data sets
 	seqs = append(seqs, []int{0, 1, 2, 3, 4, 5}, []int{6, 0, 6, 0, 7, 7}, []int{2, 7, 4, 2, 7, 4}, []int{5, 4, 3, 2, 1, 0})
 	if r.Thorough() {
-		for a := range c08Recs {
-			for b := range c08Recs {
-				for c := range c08Recs {
+		for a := 0; a < c08Base; a++ {
+			for b := 0; b < c08Base; b++ {
+				for c := 0; c < c08Base; c++ {
 					seqs = append(seqs, []int{a, b, c, (a + 1) % 8, (b + 3) % 8})
 				}
 			}
@@ -264,7 +295,7 @@ func c08Run(r *vkit.Run) {
 	for _, n := range []int{101, 1001, 5003} {
 		seq := make([]int, n)
 		for i := range seq {
-			seq[i] = (i*7 + i/13) % len(c08Recs)
+			seq[i] = (i*7 + i/13) % c08Base
 		}
 		for _, lim := range []int{0, -1, 100, 1000, n - 1, n, n + 1} {
 			idx++
